@@ -112,6 +112,12 @@ func caseOptions(r *common.Run, n int) raftsim.Options {
 	case "C17":
 		o.Steps = 1200 + rng.Intn(2000)
 		o.WPartition, o.WCrash, o.WTransfer = 2, 2, 2
+		// rate limiting in a quarter of the cases (own PRNG stream: the other cases keep their shape)
+		if rl := r.Rand("ratelimit", n); rl.Intn(4) == 0 {
+			o.MaxInMem = uint64(2048 + rl.Intn(16384))
+			o.Pad = 100 + rl.Intn(400)
+			o.WPropose = 12
+		}
 	case "C03", "C04":
 		o.WCrash, o.WTransfer, o.WPartition = 2, 2, 2
 	}
